@@ -59,6 +59,12 @@ func (c *errorCauseCompactor) cropWorkingDir(factor float64) {
 	c.ec.WorkingDir = cropString(c.ec.WorkingDir, length)
 }
 
+// cropStrings crops Message and WorkingDir to the given length
+func (c *errorCauseCompactor) cropStrings(length int) {
+	c.ec.Message = cropString(c.ec.Message, length)
+	c.ec.WorkingDir = cropString(c.ec.WorkingDir, length)
+}
+
 func (c *errorCauseCompactor) crop(factor float64) {
 	c.cropStackTraces(factor)
 	c.cropMessage(factor)
